@@ -68,6 +68,10 @@ def judge(ctx, case, res, mout, info_lines):
             ctx.fail('pipe-info-not-additive', 'after a first stream over %d elements pipe_info is %s, expected %s' % (
                 case['prior_n'], res.get('prior_info'), (p0, y0)), small)
             return
+    if res.get('infos_changed_later'):
+        ctx.fail('pipe-info-readout-changes-later', '%d of the read-outs taken while the stream ran show different numbers afterwards: a read-out '
+                 'describes the moment it was taken' % res['infos_changed_later'], small)
+        return
     skip = case['cfg']['skipNone']
     # oracle at every hand-over
     nv = 0
